@@ -44,7 +44,8 @@ def corpus(ctx, per):
                 P = g.problem()
                 if adv and k % 2 == 1:
                     P = clash_names(ctx.rng, P)
-                jobs.append((cid, P, cname, False))
+                # every second problem is compiled twice through ONE compiler instance and the second result is judged
+                jobs.append((cid, P, cname, "reuse" if k % 2 == 0 else False))
     return jobs
 
 
